@@ -291,4 +291,44 @@ CANARIES: Dict[str, Dict[str, Any]] = {
         old="        upper=dim_size**0.5,  # one-hot limit", new="        upper=dim_size**0.25,  # one-hot limit",
         job="op:softmax[constraint=None,dtype=None]", expect=["C04:functional.softmax:output_scale_between"],
     ),
+    "c15-wrapper-quantises-bias": dict(
+        props=["C15"], file="unit_scaling/transforms/_simulate_format.py", module="unit_scaling.transforms._simulate_format",
+        old="    weight = fwd_format.quantise_fwd(weight)\n    output = F.linear(input, weight, bias)", new="    weight = fwd_format.quantise_fwd(weight)\n    bias = fwd_format.quantise_fwd(bias)\n    output = F.linear(input, weight, bias)",
+        job="c15:wrapper[_quantised_linear]", expect=["equals_op_on_fwd_quantised_operands"],
+    ),
+    "c15-wrapper-backward-uses-forward-format": dict(
+        props=["C15"], file="unit_scaling/transforms/_simulate_format.py", module="unit_scaling.transforms._simulate_format",
+        old="    output = F.linear(input, weight, bias)\n    return bwd_format.quantise_bwd(output)", new="    output = F.linear(input, weight, bias)\n    return fwd_format.quantise_bwd(output)",
+        job="c15:wrapper[_quantised_linear]", expect=["equals_op_on_fwd_quantised_operands"],
+    ),
+    "c15-quantise_bwd-passes-gradient-through": dict(
+        props=["C15"], file="unit_scaling/formats.py", module="unit_scaling.formats",
+        old="                return self.quantise(grad_y)", new="                return grad_y",
+        job="c15:quantise_bwd[nearest,srbits_given=False]", expect=["body==straight_through_contract"],
+    ),
+    "c15-quantise_fwd-quantises-gradient-too": dict(
+        props=["C15"], file="unit_scaling/formats.py", module="unit_scaling.formats",
+        old="            ) -> Tensor:\n                return grad_y\n", new="            ) -> Tensor:\n                return self.quantise(grad_y)\n",
+        job="c15:quantise_fwd[nearest,srbits_given=False]", expect=["body==straight_through_contract"],
+    ),
+    "c15-fp8-formats-swapped": dict(
+        props=["C15"], file="unit_scaling/transforms/_simulate_format.py", module="unit_scaling.transforms._simulate_format",
+        old="fwd_format=FPFormat(4, 3), bwd_format=FPFormat(5, 2)", new="fwd_format=FPFormat(5, 2), bwd_format=FPFormat(4, 3)",
+        job="c15:simulate_fp8", expect=["forward_format_is_E4M3"],
+    ),
+    "c15-format-tuple-drops-srbits": dict(
+        props=["C15"], file="unit_scaling/formats.py", module="unit_scaling.formats",
+        old="        format.rounding,\n        format.srbits,\n    )", new="        format.rounding,\n    )",
+        job="c15:format_tuple_roundtrip[stochastic,srbits_given=True]", expect=["round_trip_preserves_srbits"],
+    ),
+    "c15-backend-erases-without-rewiring": dict(
+        props=["C15"], file="unit_scaling/transforms/utils.py", module="unit_scaling.transforms.utils",
+        old="        source.replace_all_uses_with(new_node)\n", new="",
+        job="c15:backend[match:F.linear]", expect=["C15:transforms._simulate_format._quantisation_backend"],
+    ),
+    "c15-attention-wrapper-skips-value": dict(
+        props=["C15"], file="unit_scaling/transforms/_simulate_format.py", module="unit_scaling.transforms._simulate_format",
+        old="    query, key, value = (fwd_format.quantise_fwd(t) for t in (query, key, value))\n    output = F.scaled_dot_product_attention", new="    query, key = (fwd_format.quantise_fwd(t) for t in (query, key))\n    output = F.scaled_dot_product_attention",
+        job="c15:wrapper[_quantised_scaled_dot_product_attention]", expect=["equals_op_on_fwd_quantised_operands"],
+    ),
 }
